@@ -184,24 +184,43 @@ impl super::Protocol for Protocol {
 /// zero-length file, which is what an interrupted earlier write can leave behind, may be
 /// completed. If writing the content fails, the file is removed again, but only if this
 /// call created it or it held no content.
+///
+/// A file being created is also zero-length for a moment. So that two writers creating
+/// the same file can't both take it for theirs, whoever writes into a zero-length file
+/// holds a lock on it while doing so, and looks at the length again once it has the lock:
+/// exactly one of them finds the file still empty.
 fn write_file(path: &Path, content: &[u8], write_mode: WriteMode) -> io::Result<()> {
     use std::io::Write;
     let mut options = std::fs::OpenOptions::new();
     options.write(true);
-    let mut file = match write_mode {
-        WriteMode::Overwrite => options.create(true).truncate(true).open(path)?,
-        WriteMode::CreateNew => match options.create_new(true).open(path) {
-            Ok(file) => file,
-            Err(err) if err.kind() == io::ErrorKind::AlreadyExists => {
-                match std::fs::metadata(path) {
-                    Ok(metadata) if metadata.is_file() && metadata.len() == 0 => {
-                        std::fs::OpenOptions::new().write(true).open(path)?
-                    }
-                    _ => return Err(err),
+    let (mut file, _lock) = match write_mode {
+        WriteMode::Overwrite => (options.create(true).truncate(true).open(path)?, None),
+        WriteMode::CreateNew => {
+            let (file, lock) = match options.create_new(true).open(path) {
+                Ok(file) => {
+                    let lock = WriteLock::acquire(&file, true)?;
+                    (file, lock)
                 }
+                Err(err) if err.kind() == io::ErrorKind::AlreadyExists => {
+                    match std::fs::metadata(path) {
+                        Ok(metadata) if metadata.is_file() && metadata.len() == 0 => {}
+                        _ => return Err(err),
+                    }
+                    let file = std::fs::OpenOptions::new().write(true).open(path)?;
+                    // If it's locked, it isn't a leftover: someone is writing it right now.
+                    match WriteLock::acquire(&file, false)? {
+                        Some(lock) => (file, Some(lock)),
+                        None => return Err(err),
+                    }
+                }
+                Err(err) => return Err(err),
+            };
+            if file.metadata()?.len() != 0 {
+                // Somebody else filled it in before we got the lock.
+                return Err(io::ErrorKind::AlreadyExists.into());
             }
-            Err(err) => return Err(err),
-        },
+            (file, lock)
+        }
     };
     if let Err(err) = file.write_all(content).and_then(|()| file.flush()) {
         drop(file);
@@ -211,6 +230,46 @@ fn write_file(path: &Path, content: &[u8], write_mode: WriteMode) -> io::Result<
         return Err(err);
     }
     Ok(())
+}
+
+/// An exclusive advisory lock on a file that is being written; released when dropped.
+struct WriteLock {
+    #[cfg(unix)]
+    _guard: Option<nix::fcntl::Flock<std::fs::File>>,
+}
+
+impl WriteLock {
+    /// Lock `file`, either waiting for the lock or giving up at once, with `Ok(None)`, if
+    /// someone else holds it.
+    ///
+    /// Filesystems (and platforms) that can't lock files are treated as if the lock was
+    /// granted.
+    #[cfg(unix)]
+    fn acquire(file: &std::fs::File, wait: bool) -> io::Result<Option<WriteLock>> {
+        use nix::errno::Errno;
+        use nix::fcntl::{Flock, FlockArg};
+        let arg = if wait {
+            FlockArg::LockExclusive
+        } else {
+            FlockArg::LockExclusiveNonblock
+        };
+        // The duplicate refers to the same open file, so the lock covers `file` too.
+        match Flock::lock(file.try_clone()?, arg) {
+            Ok(locked) => Ok(Some(WriteLock {
+                _guard: Some(locked),
+            })),
+            Err((_, Errno::EWOULDBLOCK)) if !wait => Ok(None),
+            Err((_, Errno::ENOLCK | Errno::EOPNOTSUPP | Errno::ENOSYS | Errno::EINVAL)) => {
+                Ok(Some(WriteLock { _guard: None }))
+            }
+            Err((_, errno)) => Err(errno.into()),
+        }
+    }
+
+    #[cfg(not(unix))]
+    fn acquire(_file: &std::fs::File, _wait: bool) -> io::Result<Option<WriteLock>> {
+        Ok(Some(WriteLock {}))
+    }
 }
 
 async fn collect_tokio_dir_entry(dir_entry: tokio::fs::DirEntry) -> Option<DirEntry> {
